@@ -200,7 +200,7 @@ var hdQuotedLines = []string{"", " ", "text", "\tindented", "$x", "${x:-y}", "$(
 
 func (g *G) heredoc() *Heredoc {
 	h := &Heredoc{Dash: g.p(1, 3)}
-	base := pickS(g, []string{"E", "EOF", "終", "END_1"})
+	base := pickS(g, []string{"E", "EOF", "終", "END_1", "-E"})
 	h.DelimText = base
 	switch g.n(6) {
 	case 0:
@@ -616,8 +616,9 @@ func (g *G) compound() *Cmd {
 			it := &CaseItem{Lparen: g.p(1, 3), Break: true}
 			for j := 1 + g.n(3); j > 0; j-- {
 				w := g.word(false)
-				if WordText(w) == "esac" {
-					w = LW("esac1")
+				if WordText(w) == "esac" && len(it.Pats) == 0 {
+					// as first pattern the word esac is only recognised after "("
+					it.Lparen = true
 				}
 				it.Pats = append(it.Pats, w)
 			}
